@@ -350,6 +350,13 @@ def gen_jobs(tier, rng):
                          3: ["a:1:%d" % (pa[0][0] if pa else elems[0]), "a:2:%d" % (pb[0][0] if pb else elems[0])]}[idx % 4]
                 idx += 1
                 fam["staleness"].append("Q 2 - %s" % ",".join(build_ops(1, pa) + build_ops(2, pb) + reads + [op]))
+    # ... and a single insert(a, b) after the reads
+    for pa in parts:
+        for a in elems:
+            for b in elems:
+                reads = {0: ["s:1"], 1: ["l:1"], 2: ["p:1:3"], 3: ["a:1:%d" % (pa[0][0] if pa else elems[0])]}[idx % 4]
+                idx += 1
+                fam["staleness"].append("Q 1 - %s" % ",".join(build_ops(1, pa) + reads + ["i:1:%d:%d" % (a, b)]))
     # concurrent insert phases under the cooperative scheduler, 1..8 threads
     def cprog(nt, per, pool):
         return ";".join(",".join("%d:%d" % (rng.choice(pool), rng.choice(pool)) for _ in range(rng.randint(1, per))) for _ in range(nt))
